@@ -5,6 +5,7 @@ CONSTANTS
   MaxTC = 1
   MaxFwd = 1
   PlaceE = {"i"}
+  AllowUnused = 0
   PRUNE = TRUE
   EMIT = TRUE
 INVARIANTS Finished StepOK Emit
